@@ -6,7 +6,7 @@ import numpy as np
 
 import core
 from core import cq
-from latlib import F, rand_lattice
+from latlib import F, rand_lattice, qv, lvec
 import logging
 import libertem_blobfinder.common.fullmatch as fm
 import libertem_blobfinder.common.gridmatching as grm
@@ -162,6 +162,15 @@ def mk_replay(c, fail):
 
 
 def replay(body):
+    if 'tumble' in body.get('args', {}):
+        t = body['args']['tumble']
+        c = dict(t, pos=np.array(t['pos']), w=np.array(t['w']), sel=np.array(t['sel'], dtype=bool), start=tuple(np.array(v) for v in t['start']))
+        fail = tumble_stmt_failure(c)
+        print(json.dumps({'failure_now': fail}, indent=1))
+        if fail:
+            print('VIOLATION property=C12 replay=(given)')
+            return 1
+        return 0
     a = body['args']
     params = {k: (np.inf if v is None else v) for k, v in a['params'].items()}
     c = dict(kind=a['kind'], pts=np.array(a['pts']), w=np.array(a['w']), zero=np.array(a['zero']), params=params, cand=None if a['cand'] is None else [np.array(v) for v in a['cand']],
@@ -174,10 +183,107 @@ def replay(body):
     return 0
 
 
+# ---- (K) the per-pair search: _match_all + _tumble vs Tumble.do_pair (exact rationals) ------------------------------
+def gen_tumble(rng):
+    from props import C05
+    c = C05.gen(rng)
+    n = min(len(c['pos']), 12)
+    pos, w = c['pos'][:n], np.where(np.isnan(c['w'][:n]), 0.01, c['w'][:n])
+    sel = rng.random(n) < 0.85
+    la, lb = np.linalg.norm(c['true'][1]), np.linalg.norm(c['true'][2])
+    # length limits: none, generous, excluding the shorter vector, and right at the true lengths (the fitted length then falls on either
+    # side of the limit from one stage of _tumble to the next)
+    e1, e2 = rng.uniform(-0.004, 0.012, 2)
+    mind, maxd = [(0.0, 1e6), (0.7 * min(la, lb), 1.3 * max(la, lb)), (1.05 * min(la, lb), 1e6), (0.0, max(la, lb) * (1 + e1)),
+                  (min(la, lb) * (1 - e2), 1e6), (min(la, lb) * (1 - e2), max(la, lb) * (1 + e1))][int(rng.integers(0, 6))]
+    return dict(pos=pos, w=w, sel=sel, start=c['start'], tol=float(rng.choice([0.5, 1.5, 3.0])), mm=int(rng.integers(3, 6)), mind=float(mind), maxd=float(maxd),
+                ang=float(rng.choice([np.pi / 10, np.pi / 5, np.pi / 3, 1.4])))
+
+
+def run_tumble(c):
+    m = fm.FullMatcher(tolerance=c['tol'], min_weight=0.0, min_match=c['mm'], min_angle=c['ang'], min_delta=c['mind'], max_delta=c['maxd'])
+    corr = grm.CorrelationResult(centers=c['pos'], refineds=c['pos'], peak_values=c['w'], peak_elevations=c['w'])
+    ps = grm.PointSelection(corr, selector=c['sel'].copy())
+    try:
+        m0 = m._match_all(point_selection=ps, zero=c['start'][0], a=c['start'][1], b=c['start'][2])
+        return m._tumble(ps, m0)
+    except np.linalg.LinAlgError:
+        return None
+
+
+def tumble_expr(c):
+    pk = '[' + '; '.join('Build_peak %s %s' % (cq(F(w)), qv(p)) for w, p in zip(c['w'], c['pos'])) + ']'
+    sel = '[' + '; '.join('true' if s else 'false' for s in c['sel']) + ']'
+    s2 = F(math.sin(c['ang'])) ** 2
+    return ('match do_pair %s %d %s %s %s %s %s %s %s %s with Some (m, z, a, b) => (1, mout m, vl z, vl a, vl b) | None => (0, [], vl vzero, vl vzero, vl vzero) end'
+            % (cq(F(c['tol']) ** 2), c['mm'], cq(F(c['mind']) ** 2), cq(F(c['maxd']) ** 2), cq(s2), sel, pk, qv(c['start'][0]), qv(c['start'][1]), qv(c['start'][2])))
+
+
+def tumble_problem(c, mv):
+    ok, mm_, z, a, b = mv
+    r = run_tumble(c)
+    if bool(ok) != (r is not None):
+        return 'validity: model %s, implementation %s' % ('match' if ok else 'None', 'None' if r is None else 'match')
+    if ok:
+        msel = np.array([e[0] == 1 for e in mm_])
+        midx = np.array([[e[1], e[2]] for e in mm_ if e[0] == 1])
+        if not np.array_equal(msel, r.selector) or not np.array_equal(midx, r.indices):
+            return 'selection / indices differ: model %s impl %s' % (msel.astype(int).tolist(), r.selector.astype(int).tolist())
+        for nm, q, v in (('zero', z, r.zero), ('a', a, r.a), ('b', b, r.b)):
+            if np.abs(lvec(q) - v).max() > 1e-7:
+                return '%s: model %s impl %s' % (nm, lvec(q).tolist(), np.asarray(v).tolist())
+    return None
+
+
+def tumble_stmt_failure(c):
+    """what the property says about a returned match, on the implementation only"""
+    r = run_tumble(c)
+    if r is None:
+        return None
+    if len(r) < c['mm'] or len(r.indices) != len(r):
+        return '_tumble returned a match with %d peaks / %d indices, min_match=%d' % (len(r), len(r.indices), c['mm'])
+    for nm, v in (('a', r.a), ('b', r.b)):
+        ln = float(np.linalg.norm(v))
+        if not (c['mind'] * (1 - 1e-9) <= ln <= c['maxd'] * (1 + 1e-9)):
+            return '_tumble returned a match whose vector %s has length %.6g outside [%.6g, %.6g]' % (nm, ln, c['mind'], c['maxd'])
+    sn = abs(r.a[0] * r.b[1] - r.a[1] * r.b[0]) / (np.linalg.norm(r.a) * np.linalg.norm(r.b))
+    if sn < math.sin(c['ang']) * (1 - 1e-9):
+        return '_tumble returned a match whose vectors are separated by less than min_angle (|sin| = %.6g < %.6g)' % (sn, math.sin(c['ang']))
+    w = r.peak_elevations
+    A = np.hstack([np.ones((len(r), 1)), r.indices]) * np.sqrt(w)[:, None]
+    x, *_ = np.linalg.lstsq(A, r.refineds * np.sqrt(w)[:, None], rcond=None)
+    if not (np.allclose(r.zero, x[0], atol=1e-7) and np.allclose(r.a, x[1], atol=1e-7) and np.allclose(r.b, x[2], atol=1e-7)):
+        return '_tumble returned a match whose lattice is not the weighted least-squares fit of its own peaks'
+    return None
+
+
+def tumble_replay(c, fail):
+    return {'kind': 'input', 'call': 'FullMatcher._match_all + _tumble', 'args': {'tumble': {k: (v.tolist() if isinstance(v, np.ndarray) else ([x.tolist() for x in v] if k == 'start' else v))
+                                                                                       for k, v in c.items()}}, 'failure': fail}
+
+
 def run(ctx):
     rng = ctx.rng
     ctx.check_theorems()
-    ctx.check_generated(['qfm', 'vmatch', 'vidx', 'vfit', 'fm'])
+    ctx.check_generated(['qfm', 'vmatch', 'vidx', 'vfit', 'fm', 'fmtumble'])
+    # (K) the per-pair search (_match_all + _tumble) in exact rationals vs the implementation; (S) the clauses on what it returns
+    tcases = [gen_tumble(rng) for _ in range(ctx.n(24, 240))]
+    tvals = ctx.coq_eval('tumble', 'Model.Lattice Model.WLS Model.Match Model.Tumble', [tumble_expr(c) for c in tcases], shard=4, timeout=1500)
+    nbad = nval = 0
+    for c, mv in zip(tcases, tvals):
+        ctx.count(1, key=('tumble', c['pos'].tolist(), c['tol'], c['mm'], c['mind'], c['ang']))
+        ctx.hist('tumble model result', 'match' if mv[0] else 'None')
+        nval += int(bool(mv[0]))
+        fail = tumble_stmt_failure(c)
+        if fail:
+            ctx.violation('input', fail, tumble_replay(c, fail))
+            continue
+        prob = tumble_problem(c, mv)
+        if prob:
+            nbad += 1
+            ctx.obligation('K:C12 tumble case', False, prob[:400])
+    ctx.obligation('K:C12 Tumble.do_pair (check, optimise, check, re-match, check, optimise, check over Q) vs FullMatcher._match_all + _tumble (%d clouds, %d matches)'
+                   % (len(tcases), nval), nbad == 0, '%d disagreements' % nbad)
     # (K) trace-driven: the real lattice search's answers are recorded and fed to the Coq loop as the oracle
     exprs, meta = [], []
     nprogress = 0
